@@ -259,7 +259,7 @@ class CallMixin:
             if name == "at":
                 return AtRef(o)
             if name == "shape":
-                return (o.n,)
+                return (o.n if isinstance(o.n, int) else SInt(o.n, True),)
             if name in ("T",):
                 raise Unsupported("transpose of Stacked")
             return Stacked(o.n, lambda i: self.getattr(o.at(i), name), tag="." + name)
@@ -298,6 +298,18 @@ class CallMixin:
                 return o.func
         if isinstance(o, AtRef):
             raise Unsupported("bare .at attribute")
+        if isinstance(o, AtIdx):
+            if name == "set":
+                def at_set(interp, x, o=o):
+                    from .interp_ops import zint
+                    from theory.externals import ite
+                    base, idx = o.base, zint(o.idx)
+                    interp.ctx.notes.append("A4: x.at[i].set(v)[j] = v if j == i else x[j]")
+                    if isinstance(base, Stacked):
+                        return Stacked(base.n, lambda j: ite(interp, j == idx, x, base.at(j)), tag="at-set")
+                    raise Unsupported("at[].set on non-batched value")
+                return NativeFn("at.set", at_set)
+            raise Unsupported(f".at[...].{name}")
         if hasattr(o, "pyvc_getattr"):
             return o.pyvc_getattr(self, name)
         if default is not _MISSING:
@@ -498,7 +510,21 @@ class CallMixin:
             return self.call_opaque(f, args, kwargs)
         if isinstance(f, AtIdx):
             raise Unsupported("call of .at[...]")
+        if isinstance(f, Stacked):
+            return self.call_stacked(f, args, kwargs)
         raise Unsupported(f"call of {type(f).__name__}")
+
+    def call_stacked(self, f, args, kwargs):
+        """a batched value being called: elementwise for batched callables; a batched ChoiceMap called with one scalar
+        index is its element (C17 lemma: indexing a vectorised choice map = the element's choice map)"""
+        probe = f.at(self.ctx.const("iprobe", z3.IntSort()))
+        is_chm = (isinstance(probe, UVal) and probe.cls == "ChoiceMap") or \
+                 (isinstance(probe, Obj) and any(c.name == "ChoiceMap" for c in self.mro(probe.cls)))
+        if is_chm and len(args) == 1 and not kwargs and isinstance(args[0], (int, SInt)):
+            from .interp_ops import zint
+            self.ctx.notes.append("C17 lemma used: vectorised choice map indexed at i is element i's choice map")
+            return f.at(zint(args[0]))
+        return Stacked(f.n, lambda i: self.call(f.at(i), list(args), kwargs), tag="call")
 
     def pack_args(self, args):
         """positional arguments (possibly ending in an opaque star) as one U term denoting the argument tuple"""
